@@ -9,7 +9,10 @@ additively (specs of other kinds go to the unchanged translator; the expression 
 and the native `opaque` option are the translator's own `Tr` class):
 
   kind 'cmp'   the comparison whose source text (`ast.unparse`) is `text`, inside `func`
-               -> `decide (<translated comparison>)`, ret 'Bool'
+               -> `decide (<translated comparison>)`, ret 'Bool'; with `lhs` / `rhs` instead of
+               `text`: the comparison between these two operand texts whatever its operator
+               (round 3: `<` -> `<=` then yields a *translatable* leaf that no longer satisfies
+               `radius_test_leaf` / `neighbors_exact` / `accept_leaf` …, instead of a stub)
   kind 'expr'  the (sub-)expression whose source text is `text`, inside `func`
   `count`      required number of occurrences of that text in the function (default 1)
 
@@ -42,10 +45,19 @@ def _install():
         fn = m.find_func(ast.parse(text), spec['func'])
         if fn is None:
             raise m.Untranslatable(f"anchor {spec['func']} not found")
-        want = ast.Compare if spec['kind'] == 'cmp' else ast.expr
-        hits = [n for n in ast.walk(fn) if isinstance(n, want) and ast.unparse(n) == spec['text']]
+        if spec['kind'] == 'cmp' and 'lhs' in spec:
+            # the comparison between two given operands, *whatever its operator*: an edited
+            # operator still translates, and the theorems that use the leaf stop to hold
+            hits = [n for n in ast.walk(fn) if isinstance(n, ast.Compare) and len(n.ops) == 1
+                    and ast.unparse(n.left) == spec['lhs']
+                    and ast.unparse(n.comparators[0]) == spec['rhs']]
+            what = f"{spec['lhs']} <op> {spec['rhs']}"
+        else:
+            want = ast.Compare if spec['kind'] == 'cmp' else ast.expr
+            hits = [n for n in ast.walk(fn) if isinstance(n, want) and ast.unparse(n) == spec['text']]
+            what = spec['text']
         if len(hits) != spec.get('count', 1):
-            raise m.Untranslatable(f"expected {spec.get('count', 1)} occurrence(s) of `{spec['text']}` "
+            raise m.Untranslatable(f"expected {spec.get('count', 1)} occurrence(s) of `{what}` "
                                    f"in {spec['func']}, found {len(hits)}")
         tr = m.Tr(spec)
         env = {k: (m.NONE if k in spec.get('none', []) else v) for k, v in spec['params'].items()}
@@ -74,22 +86,22 @@ _F = 'util/searchlight.py'
 LEAVES = [
     # bounding-box pre-filter, one comparison per axis (each must use its own centre coordinate)
     dict(name='absLtX', file=_F, func='_get_searchlight_neighbors', kind='cmp',
-         text='abs(x - cx) < radius', params={'x': 'A', 'cx': 'A', 'radius': 'A'}, ret='Bool'),
+         lhs='abs(x - cx)', rhs='radius', params={'x': 'A', 'cx': 'A', 'radius': 'A'}, ret='Bool'),
     dict(name='absLtY', file=_F, func='_get_searchlight_neighbors', kind='cmp',
-         text='abs(y - cy) < radius', params={'y': 'A', 'cy': 'A', 'radius': 'A'}, ret='Bool'),
+         lhs='abs(y - cy)', rhs='radius', params={'y': 'A', 'cy': 'A', 'radius': 'A'}, ret='Bool'),
     dict(name='absLtZ', file=_F, func='_get_searchlight_neighbors', kind='cmp',
-         text='abs(z - cz) < radius', params={'z': 'A', 'cz': 'A', 'radius': 'A'}, ret='Bool'),
+         lhs='abs(z - cz)', rhs='radius', params={'z': 'A', 'cz': 'A', 'radius': 'A'}, ret='Bool'),
     # the radius test on the Euclidean distances returned by cdist
     dict(name='radiusTest', file=_F, func='_get_searchlight_neighbors', kind='cmp',
-         text='distance < radius', params={'distance': 'A', 'radius': 'A'}, ret='Bool'),
+         lhs='distance', rhs='radius', params={'distance': 'A', 'radius': 'A'}, ret='Bool'),
     # acceptance of a centre: in-mask fraction of its searchlight against the threshold
     dict(name='acceptTest', file=_F, func='get_volume_searchlight', kind='cmp',
-         text='mask[neighbors].mean() >= threshold',
+         lhs='mask[neighbors].mean()', rhs='threshold',
          opaque={'mask[neighbors].mean()': 'inside_fraction'},
          params={'inside_fraction': 'A', 'threshold': 'A'}, ret='Bool'),
     # chunking limit
     dict(name='chunked', file=_F, func='get_searchlight_RDMs', kind='cmp',
-         text='n_centers > 1000', params={'n_centers': 'Nat'}, ret='Bool'),
+         lhs='n_centers', rhs='1000', params={'n_centers': 'Nat'}, ret='Bool'),
     # width of the pre-allocated table of the chunked branch
     dict(name='rdmWidth', file=_F, func='get_searchlight_RDMs', kind='expr',
          text='n_conds * (n_conds - 1) // 2', params={'n_conds': 'Nat'}, ret='Nat'),
